@@ -560,15 +560,54 @@ pub fn namespace_programs() -> Vec<(String, Vec<(String, Module)>)> {
     out
 }
 
+/// The same program with the exporting module `m` moved to `new_path` (imports rewritten), and
+/// copies of it left behind under `decoys` - modules nobody imports, spelled like a suffix of the path.
+fn repath(mods: &[(String, Module)], new_path: &[&str], decoys: &[&str]) -> Vec<(String, Module)> {
+    let mut out: Vec<(String, Module)> = mods.to_vec();
+    let Some(mi) = out.iter().position(|(n, _)| n == "m") else { return out };
+    let original = out[mi].1.clone();
+    out[mi].0 = new_path.join("/");
+    for (_, m) in out.iter_mut() {
+        for it in m.items.iter_mut() {
+            if let Item::Import { path, .. } = it {
+                if path.len() == 1 && path[0] == "m" {
+                    *path = new_path.iter().map(|s| s.to_string()).collect();
+                }
+            }
+        }
+    }
+    for d in decoys {
+        out.push((d.to_string(), original.clone()));
+    }
+    out
+}
+
+const MODULE_PATHS: &[(&str, &[&str], &[&str])] = &[
+    ("m", &["m"], &[]),
+    ("d/m", &["d", "m"], &[]),
+    ("d/m next to m", &["d", "m"], &["m"]),
+    ("d/e/m next to m and e/m", &["d", "e", "m"], &["m", "e/m"]),
+];
+
 fn namespace_layer(rep: &mut Report) {
-    let progs = namespace_programs();
+    let base = namespace_programs();
+    let mut progs: Vec<(String, Vec<(String, Module)>)> = vec![];
+    for (name, mods) in &base {
+        for (pname, path, decoys) in MODULE_PATHS {
+            if *pname == "m" {
+                progs.push((name.clone(), mods.clone()));
+            } else {
+                progs.push((format!("{name}@{pname}"), repath(mods, path, decoys)));
+            }
+        }
+    }
     let mut l = Layer { name: "type-constructor-namespaces".into(), exhaustive: true, ..Default::default() };
     let res: Vec<(u64, Vec<Violation>)> = progs
         .par_iter()
         .map(|(name, mods)| match catch(|| eval_program(Which::C05, mods, Layout::Space)) {
             Ok((n, _, fails)) => {
                 let texts: Vec<String> = mods.iter().map(|(_, m)| print_module(m, Layout::Space).text).collect();
-                (n, fails.into_iter().take(4).map(|(class, key, detail)| Violation { class, key: format!("namespace|{key}"), witness: json!({"namespace_program": name, "main": texts[0], "m": texts[1]}), detail: format!("{detail}\n      main.gleam: {}\n      m.gleam: {}", texts[0].trim(), texts[1].trim()) }).collect())
+                (n, fails.into_iter().take(4).map(|(class, key, detail)| Violation { class, key: format!("namespace|{key}"), witness: json!({"namespace_program": name, "main": texts[0], "m": texts[1]}), detail: format!("{detail}\n      main.gleam: {}\n      {}.gleam: {}", texts[0].trim(), mods[1].0, texts[1].trim()) }).collect())
             }
             Err(m) => (0, vec![Violation { class: "panic".into(), key: panic_class(&m), witness: json!({"namespace_program": name}), detail: format!("evaluation panicked: {m}") }]),
         })
@@ -581,7 +620,7 @@ fn namespace_layer(rep: &mut Report) {
             rep.violation(x);
         }
     }
-    l.bound = format!("{} programs: every layout of 1-2 public type-level declarations in the exporting module (custom type with one constructor / alias; type, alias and constructor names from {{A, B}}, all orders) x 17 import forms (plain, `type`, both in either order, `as`, mixed) x no local type or a local `type L {{ C }}` (names from {{A, B}}; combinations Gleam itself rejects as duplicate are skipped) x {{nothing, a parameter, a function}} spelled like the module accessor - each with value, pattern, annotation, module-qualified and constant-initialiser uses of both spellings", progs.len());
+    l.bound = format!("{} programs: every layout of 1-2 public type-level declarations in the exporting module (custom type with one constructor / alias; type, alias and constructor names from {{A, B}}, all orders) x 17 import forms (plain, `type`, both in either order, `as`, mixed) x no local type or a local `type L {{ C }}` (names from {{A, B}}; combinations Gleam itself rejects as duplicate are skipped) x {{nothing, a parameter, a function}} spelled like the module accessor - each with value, pattern, annotation, module-qualified and constant-initialiser uses of both spellings; every program with the exporting module at `m`, at `d/m`, at `d/m` beside an unimported copy `m`, and at `d/e/m` beside unimported copies `m` and `e/m`", progs.len());
     rep.layer(l);
 }
 
@@ -652,7 +691,7 @@ fn dot_grid_cases() -> Vec<(String, Vec<(String, String)>, usize, BTreeSet<Strin
                 must.extend(offered.iter().map(|s| s.to_string()));
             }
         }
-        for (iname, import, acc, mpath) in [("plain", "import m", "m", "m"), ("alias", "import m as n", "n", "m"), ("nested", "import d/m", "m", "d/m")] {
+        for (iname, import, acc, mpath) in [("plain", "import m", "m", "m"), ("alias", "import m as n", "n", "m"), ("nested", "import d/m", "m", "d/m"), ("nested twice", "import d/e/m", "m", "d/e/m"), ("nested twice, alias", "import d/e/m as n", "n", "d/e/m")] {
             for (cname, body) in [("statement", "{ACC}."), ("let", "let a = {ACC}. a"), ("partial", "{ACC}.zz"), ("argument", "main({ACC}.)")] {
                 let body = body.replace("{ACC}", acc);
                 let main = format!("{import}\npub fn main() {{ {body} }}\n");
@@ -739,7 +778,7 @@ fn dot_grid_layer(rep: &mut Report) {
             rep.violation(x);
         }
     }
-    l.bound = format!("{} completions triggered by '.': after `module.` every subset of 8 item kinds (pub/private function, pub/private constant, pub/private/opaque custom type, pub alias) x 3 import forms (plain, `as`, nested path) x 4 cursor contexts (statement, let value, before a partial name, call argument) - exactly the public functions and the constructors of public non-opaque types; after `value.` every layout of a record type with 1-2 variants over fields {{a: Int, b: String, a: Float}} (subsets, both orders) x (annotated parameter, let-bound construction, type imported from another module) - exactly the fields common to all variants (the accessors Gleam defines for the type)", cases.len());
+    l.bound = format!("{} completions triggered by '.': after `module.` every subset of 8 item kinds (pub/private function, pub/private constant, pub/private/opaque custom type, pub alias) x 5 import forms (plain, `as`, path of 2 and of 3 segments, 3 segments with `as`) x 4 cursor contexts (statement, let value, before a partial name, call argument) - exactly the public functions and the constructors of public non-opaque types; after `value.` every layout of a record type with 1-2 variants over fields {{a: Int, b: String, a: Float}} (subsets, both orders) x (annotated parameter, let-bound construction, type imported from another module) - exactly the fields common to all variants (the accessors Gleam defines for the type)", cases.len());
     rep.layer(l);
 }
 
@@ -939,7 +978,9 @@ pub fn replay(which: Which, w: &Value) -> Vec<String> {
         return eval_dot_case(&mods, off, &must, &may).into_iter().map(|(c, d)| format!("{c}: {d}")).collect();
     }
     if let Some(name) = w["namespace_program"].as_str() {
-        let Some((_, mods)) = namespace_programs().into_iter().find(|(n, _)| n == name) else { return vec!["unknown namespace program".into()] };
+        let (base_name, pname) = name.split_once('@').unwrap_or((name, "m"));
+        let Some((_, mods)) = namespace_programs().into_iter().find(|(n, _)| n == base_name) else { return vec!["unknown namespace program".into()] };
+        let mods = MODULE_PATHS.iter().find(|p| p.0 == pname).map(|(_, path, decoys)| repath(&mods, path, decoys)).unwrap_or(mods);
         return eval_program(which, &mods, Layout::Space).2.into_iter().map(|(c, _, d)| format!("{c}: {d}")).collect();
     }
     // rebuild the program from (context, skeleton, assignment)
